@@ -1016,7 +1016,7 @@ class Evaluator:
         """single-lane chain-free LV that the lane-table path cannot treat (shifted, or an operator it lacks)"""
         return isinstance(v, LV) and lv_single_lane(v) is not None and (op in self.ARITH_ONLY or (op in ("add", "sub") and v.off != 0))
 
-    def lf_binop(self, op, a, b, w, inst):
+    def lf_binop(self, op, a, b, w, inst, al=None):
         def cv(v):
             if isinstance(v, LV):
                 r = lv_to_lf(v)
@@ -1030,6 +1030,34 @@ class Evaluator:
                 return r
             return v
         a, b = cv(a), cv(b)
+        alw = al if al is not None else self.allowed
+        if op == "shl" and isinstance(a, (LF, LS)) and isinstance(b, int):
+            # a digit moved to its place in an index: back to a lane table when it lands on the lane it depends on
+            if isinstance(a, LS):
+                var = [l for l, t in a.lanes.items() if len({t[x] for x in alw[l]}) > 1]
+                if len(var) <= 1:
+                    base = a.const + sum(t[alw[l][0]] for l, t in a.lanes.items() if l not in var)
+                    l = var[0] if var else (next(iter(a.lanes)) if a.lanes else None)
+                    if l is not None:
+                        a = LF(l, [(base + a.lanes[l][x]) & ((1 << w) - 1) if x in alw[l] else 0 for x in range(8)], w)
+                    else:
+                        return self.cbin("shl", base & ((1 << w) - 1), b, w)
+            if isinstance(a, LF) and b == 3 * a.lane and all(a.tab[x] < 8 for x in alw[a.lane]):
+                tab = [tuple(0 for _ in range(16)) for _ in range(NL)]
+                tab[a.lane] = tuple((a.tab[x] if x in alw[a.lane] else 0) for x in range(8) for _c in (0, 1))
+                return LV(w, 0, tab)
+        if op in ("sdiv", "srem") and isinstance(a, LS) and isinstance(b, int) and 0 < _s(b, w):
+            k = _s(b, w)
+            hi_l = {l: t for l, t in a.lanes.items() if all(t[x] % k == 0 for x in alw[l])}
+            lo_l = {l: t for l, t in a.lanes.items() if l not in hi_l}
+            hc, lc = (a.const, 0) if a.const % k == 0 else (0, a.const)
+            low = LS(lc, lo_l, w)
+            lo, hi = low.rng(alw)
+            if not (0 <= lo and hi < k):
+                raise Shape("division of a sum of digit contributions by %d: the remainder part ranges over %d..%d at %s" % (k, lo, hi, inst.where()))
+            if op == "srem":
+                return low
+            return LS(hc // k, {l: tuple((t[x] // k if x in alw[l] else 0) for x in range(8)) for l, t in hi_l.items()}, w)
         if isinstance(a, (int, LF)) and isinstance(b, (int, LF)) and not (isinstance(a, LF) and isinstance(b, LF) and a.lane != b.lane):
             j = a.lane if isinstance(a, LF) else b.lane
             at = lambda v, x: v if isinstance(v, int) else v.tab[x]
@@ -1064,7 +1092,7 @@ class Evaluator:
             return self.cbin(op, a, b, w)
         if isinstance(a, (LF, LS)) or isinstance(b, (LF, LS)) or \
                 (self._lfable(a, op) and (isinstance(b, int) or self._lfable(b, op))) or (self._lfable(b, op) and isinstance(a, int)):
-            return self.lf_binop(op, a, b, w, inst)
+            return self.lf_binop(op, a, b, w, inst, al)
         # formulas (i1 logic, or 0/1 integers)
         if (isinstance(a, BI) or isinstance(b, BI)) and not (isinstance(a, (LF, LS)) or isinstance(b, (LF, LS))):
             fa, fb = self.as_formula(a), self.as_formula(b)
@@ -1187,6 +1215,14 @@ class Evaluator:
                     return 1
                 if res[1]:
                     return 0
+                alw = al if al is not None else self.allowed
+                var = [l for l, t in d.lanes.items() if len({t[x] for x in alw[l]}) > 1]
+                if len(var) == 1:
+                    # only one digit still varies: the comparison is a function of that digit
+                    l = var[0]
+                    base = d.const + sum(t[alw[k][0]] for k, t in d.lanes.items() if k != l)
+                    cmpf = {"eq": lambda v: v == 0, "ne": lambda v: v != 0, "slt": lambda v: v < 0, "sle": lambda v: v <= 0, "sgt": lambda v: v > 0, "sge": lambda v: v >= 0}[pred]
+                    return LF(l, [1 if (x in alw[l] and cmpf(base + d.lanes[l][x])) else 0 for x in range(8)], 1)
                 raise Shape("comparison of a sum of digit contributions is not decided by its range at %s" % inst.where())
             def cv(v):
                 if isinstance(v, LV):
